@@ -176,6 +176,15 @@ def tree_checks(ctx, shard):
                     os.makedirs(os.path.dirname(p), exist_ok=True)
                     with open(p, "wb") as f:
                         f.write(data)
+            # exclusion patterns whose ORDER matters (gitignore is last-match-wins): duplicates of built-in names plus a negation
+            for rel, data in (("vendor/kept.py", b"def kept(a):\n    return a\n"), ("vendor/dropped.py", b"def dropped(a):\n    return a\n"),
+                              ("gen/out/keep.js", b"function keep(a) {\n  return a;\n}\n"), ("gen/out/skip.js", b"function skip(a) {\n  return a;\n}\n")):
+                p = os.path.join(root, rel)
+                os.makedirs(os.path.dirname(p), exist_ok=True)
+                with open(p, "wb") as f:
+                    f.write(data)
+            with open(os.path.join(root, ".gitignore"), "w") as f:
+                f.write("build\ndist\nvendor/*\n!vendor/kept.py\ngen/**\n!gen/out/\n!gen/out/keep.js\n*.tmp\nnode_modules\n!*.py\nvendor/dropped.py\n")
             base = canon_doc(fresh_doc(root))
             # isolation: what a tree scan reports for a file equals what the file yields when analysed alone
             from vf.model import select as S
